@@ -364,31 +364,7 @@ Proof.
     destruct (route_outs (set_proc w pi i (set_l q l1)) pi i o1) as [w1 f1]. simpl in P1.
     assert (P01 : prims w w1) by (eapply prims_trans; [apply set_proc_prims | exact P1]).
     destruct (write_event (set_l q l1) wr) as [q2 r].
-    destruct r; simpl; try (eapply prims_trans; [exact P01 | apply set_proc_prims]).
-    + (* FOk *)
-      set (w2 := set_proc w1 pi i q2).
-      assert (P2 : prims w w2) by (eapply prims_trans; [exact P01 | apply set_proc_prims]).
-      assert (P3 : prims w2 (fst (if p_killing q then emit w2 e1 T_ProcessStateStoppedEvent
-                                  else if pstate_eqb (p_state q) PS_STARTING
-                                       then seq (emit w2 e1 T_ProcessStateRunningEvent)
-                                                (fun w' => emit w' e2 T_ProcessStateExitedEvent)
-                                       else emit w2 e2 T_ProcessStateExitedEvent))).
-      { destruct (p_killing q); [apply emit_prims|].
-        destruct (pstate_eqb (p_state q) PS_STARTING); [|apply emit_prims].
-        apply seq_prims; [apply emit_prims | intros; apply emit_prims]. }
-      destruct (if p_killing q then emit w2 e1 T_ProcessStateStoppedEvent
-                else if pstate_eqb (p_state q) PS_STARTING
-                     then seq (emit w2 e1 T_ProcessStateRunningEvent)
-                              (fun w' => emit w' e2 T_ProcessStateExitedEvent)
-                     else emit w2 e2 T_ProcessStateExitedEvent) as [w3 f3]. simpl in P3.
-      match goal with |- context [set_proc w3 pi i ?q3] => set (w4 := set_proc w3 pi i q3) end.
-      assert (P4 : prims w w4).
-      { eapply prims_trans; [exact P2|]. eapply prims_trans; [exact P3 | apply set_proc_prims]. }
-      destruct (l_event (p_l q2)) as [e|]; [|exact P4].
-      pose proof (notify_prims w4 (NRejected pi i (Some e))) as P5.
-      destruct (notify w4 (NRejected pi i (Some e))) as [w5 f5]. simpl in *.
-      eapply prims_trans; eassumption.
-    + (* FEpipe: same continuation *)
+    simpl.
       set (w2 := set_proc w1 pi i q2).
       assert (P2 : prims w w2) by (eapply prims_trans; [exact P01 | apply set_proc_prims]).
       assert (P3 : prims w2 (fst (if p_killing q then emit w2 e1 T_ProcessStateStoppedEvent
@@ -1769,7 +1745,7 @@ Proof.
     pose proof (proc_step_inv h maxdig i (set_l q l1) (PWritable wr)) as PI. unfold Proc.proc_step in PI.
     pose proof (write_event_l (set_l q l1) wr) as [L2 P2].
     destruct (write_event (set_l q l1) wr) as [q2 r]. simpl in L2, P2.
-    assert (Rest : r <> FErr ->
+    assert (Rest : True ->
       let w2 := set_proc w1 pi0 i q2 in
       let '(w3, f3) := if p_killing q then emit w2 e1 T_ProcessStateStoppedEvent
                        else if pstate_eqb (p_state q) PS_STARTING
@@ -1794,7 +1770,7 @@ Proof.
         let w2 := set_proc w1 pi0 i q2 in
         good w2 /\ (forall pi e, balanced pi e w f1 w2) /\ pinv q2 /\ exists p2, get_proc w2 pi0 i = Some (p2, q2)).
       { intros R1. destruct (Drain R1) as [G1 [B1 [Iq1 [p1 GP1]]]].
-        assert (Iq2 : pinv q2) by (destruct r; try (exact (proj1 (PI Iq1))); contradiction NE; reflexivity).
+        assert (Iq2 : pinv q2) by (destruct r; exact (proj1 (PI Iq1))).
         destruct (same_slot_step w1 pi0 i p1 (set_l q l1) q2 G1 GP1 Iq2 ltac:(rewrite L2; reflexivity)) as [G2 H2].
         split; [exact G2|]. split.
         - intros pi e. specialize (B1 pi e). unfold balanced in *. rewrite H2. exact B1.
@@ -1869,17 +1845,21 @@ Proof.
         intros pi e. specialize (E4 pi e). unfold inflight_proc in E4. rewrite Ev in E4.
         unfold balanced. lia. }
     destruct r.
-    + pose proof (Rest ltac:(discriminate)) as RR. cbv zeta in RR.
+    + pose proof (Rest I) as RR. cbv zeta in RR.
       match goal with |- context [if p_killing q then ?a else ?b] =>
         destruct (if p_killing q then a else b) as [w3 f3] end.
       destruct (l_event (p_l q2)) as [ev|];
         [match goal with |- context [notify ?ww ?nn] => destruct (notify ww nn) as [w5 f5] end; exact RR | exact RR].
-    + pose proof (Rest ltac:(discriminate)) as RR. cbv zeta in RR.
+    + pose proof (Rest I) as RR. cbv zeta in RR.
       match goal with |- context [if p_killing q then ?a else ?b] =>
         destruct (if p_killing q then a else b) as [w3 f3] end.
       destruct (l_event (p_l q2)) as [ev|];
         [match goal with |- context [notify ?ww ?nn] => destruct (notify ww nn) as [w5 f5] end; exact RR | exact RR].
-    + rewrite raised_app. simpl. rewrite orb_true_r. discriminate.
+    + pose proof (Rest I) as RR. cbv zeta in RR.
+      match goal with |- context [if p_killing q then ?a else ?b] =>
+        destruct (if p_killing q then a else b) as [w3 f3] end.
+      destruct (l_event (p_l q2)) as [ev|];
+        [match goal with |- context [notify ?ww ?nn] => destruct (notify ww nn) as [w5 f5] end; exact RR | exact RR].
   - (* WDispatch *)
     unfold dispatch. destruct (nth_error (w_pools w) pi0) as [p|]; [|exact Inapp].
     apply dispatch_loop_balance. exact G.
